@@ -29,17 +29,17 @@ def balanced (toks : List Tok) : Bool :=
   r == some 0
 
 /-- `( parse n<hex> PRE POST|PANIC NID )` -/
-def handleParse : List Sx → String
+def handleParseWith (isI : String → Bool) : List Sx → String
   | [code, pre, post, _nid] =>
     match decName code, decState pre, ExecDrv.decObs post with
     | some code, some pre, some obs =>
-      let m := { pre with exec := parseProgram isInstr pre.exec code }
+      let m := { pre with exec := parseProgram isI pre.exec code }
       let ms := encState m
       let os := match obs with
         | some o => encState o
         | none => "PANIC"
       let mm := if ms == os then "" else " MISMATCH model= " ++ ms
-      let toks := (tokenize code).map (classify isInstr)
+      let toks := (tokenize code).map (classify isI)
       let pf := match obs with
         | none => " PROPFAIL C01 implementation panicked PROPFAIL C03 the parser panicked"
         | some o =>
@@ -59,6 +59,17 @@ def handleParse : List Sx → String
           else ""
       if mm == "" && pf == "" then (if toks.isEmpty then "ok T" else "ok N") else "no" ++ mm ++ pf
     | _, _, _ => "bad state"
+  | _ => "bad shape"
+
+def handleParse : List Sx → String := handleParseWith isInstr
+
+/-- `( parsec ( extra instruction names ) code PRE POST NID )`: the host registered more instructions; the ORDER of the
+lexical rules decides tokens that fall under two of them (instruction before integer / float / TRUE / FALSE) -/
+def handleParseCustom : List Sx → String
+  | extra :: rest =>
+    match decListOf decName extra with
+    | some ex => handleParseWith (fun t => isInstr t || ex.contains t) rest
+    | none => "bad extra"
   | _ => "bad shape"
 
 /-- items for which parse (print t) = t is claimed: lists, ints, bools, parser-producible names,
